@@ -156,6 +156,10 @@ func decodeMapBodyInto(blob []byte, v reflect.Value, fields []mapBodyField) erro
 		if !fv.CanAddr() {
 			continue
 		}
+		if len(raw) == 0 {
+			// msgpack nil (e.g. a nil slice saved without omitempty): the field keeps its zero value
+			continue
+		}
 		if err := msgpack.Unmarshal(raw, fv.Addr().Interface()); err != nil {
 			return fmt.Errorf("decode map-body field %q: %w", f.Name, err)
 		}
